@@ -29,7 +29,7 @@ pub const NAME_POOL: &[&str] = &[
 ];
 
 pub const VALID_LABEL_NAMES: &[&str] = &["a", "b", "c", "d", "l1", "l2", "code", "method", "_x", "A", "Zz9", "job", "x_y"];
-pub const VALID_METRIC_NAMES: &[&str] = &["m", "n", "req_total", "a:b", ":c", "_m", "M9", "x_y_z", "http_requests", "q"];
+pub const VALID_METRIC_NAMES: &[&str] = &["m", "n", "req_total", "a:b", ":c", "_m", "M9", "x_y_z", "http_requests", "q", "pre_total", "pre", "req", "x_y", "a_b_c"];
 
 /// Every class of f64 the properties mention.
 pub fn float_pool() -> Vec<f64> {
